@@ -376,6 +376,12 @@ func (n *node) start() {
 		panic(err)
 	}
 	n.stores = ibftstorage.NewStoresFromRoles(n.db, spectypes.BNRoleAttester)
+	if multiStores {
+		// as the node has: one decided store per consensus role (the stores mode; the model and the other runs
+		// count the storage calls of ONE store)
+		n.stores = ibftstorage.NewStoresFromRoles(n.db, spectypes.BNRoleAttester, spectypes.BNRoleAggregator, spectypes.BNRoleProposer,
+			spectypes.BNRoleSyncCommittee, spectypes.BNRoleSyncCommitteeContribution)
+	}
 	filterer, err := contract.NewContractFilterer(ethcommon.Address{}, nil)
 	if err != nil {
 		panic(err)
@@ -387,6 +393,9 @@ func (n *node) start() {
 		panic(err)
 	}
 }
+
+// multiStores: build the node with one decided store per role (mode stores, monitor only).
+var multiStores bool
 
 type blockResult struct {
 	status  string // ok | inferior | error | crash
